@@ -2,11 +2,12 @@
 //
 // It reads /repo/*.go and /repo/v2/*.go (non-test files, build tag verif off) and prints
 // coq/Gen/Facts.v on stdout:
-//   * for every function/method: which actions (calls, sends, receives, waits, go statements)
+//   - for every function/method: which actions (calls, sends, receives, waits, go statements)
 //     happen while which receiver mutexes are held (Lock / RLock / defer Unlock discipline);
-//   * the constants the models take as parameters (default intervals, partition limit, lease
+//   - the constants the models take as parameters (default intervals, partition limit, lease
 //     seconds, default poll interval, the comparison operator of the cycle cut-off test, the
 //     order of the validation tests in Enqueue).
+//
 // The extraction is syntactic and conservative; what it cannot classify becomes an
 // [Unknown] record, which the Coq side rejects.  Only the standard library is used.
 package main
